@@ -71,9 +71,23 @@ def run_path(harness, prefix, stats, seed=0, want_sample=False, step_limit=2_000
     except RecursionError as x:
         stats['errors'].append('RecursionError in harness')
     except Exception as x:
+        # an exception the harness did not expect.  If the path is feasible its model is a counterexample candidate:
+        # the replay on the real package decides whether the code really fails there (VIOLATION) or the harness /
+        # a model is at fault (reported as a non-reproducing counterexample = inconclusive)
         tb = traceback.format_exc(limit=-6)
-        stats['errors'].append('%s: %s\n%s' % (type(x).__name__, str(x)[:300], tb[-1500:]))
-        outcome = 'error'
+        model = None
+        try:
+            if e.solver.check() == z3.sat:
+                model = e.model_values(e.solver.model())
+        except Exception:
+            model = None
+        if model is not None:
+            outcome = 'cex'
+            stats['cex'].append(dict(msg='the code under check raised %s: %s' % (type(x).__name__, str(x)[:160]), model=model,
+                                     prefix=_fmt_prefix(e.prefix[:e.pos]), extra=dict(traceback=tb[-800:])))
+        else:
+            stats['errors'].append('%s: %s\n%s' % (type(x).__name__, str(x)[:300], tb[-1500:]))
+            outcome = 'error'
     finally:
         Engine.cur = None
     stats['queries'] += e.nq
